@@ -1,4 +1,5 @@
 import Sentinel.Lemmas.EntryLedger
+import Sentinel.Lemmas.EntryPool
 /-!
 # C01 — Entry/Exit accounting is conserved and correctly attributed
 (property theorems only; the simulation lemmas live in `Sentinel/Lemmas/Entry.lean`)
@@ -82,6 +83,72 @@ theorem default_verdict_agrees (fix : Bool) (t0 : Nat) (ops : List TOp) (h0 : 0 
     defaultRule iso hot ((obsConc (run fix t0 ops) (some res)).getD 0) batch args =
     defaultRule iso hot ((ledConc fix ops.reverse (some res)).getD 0) batch args := by
   rw [conc_refines_ledger fix t0 ops h0 hm]
+
+/-! ## (1b) pooling is transparent
+
+`EntryPool.runR` is the same lifecycle with `base.ctxPool` modelled: context objects whose fields persist across
+`Put`/`Get`, entries that keep their pointer after `Exit`, and a pool that hands out **any** free object or a new one
+(the oracle number paired with each op).  Whatever the pool does, every node, every gauge, the recording log and the
+`Err`/`Args` seen through every live entry are those of the pool-free model — hence, by (1), the ledger's.  This is the
+statement the two repairs (`args-alias`, `late-exit-error`) establish; no time-monotonicity is needed. -/
+theorem pooled_refines_pool_free (fix : Bool) (t0 : Nat) (h : List (TOp × Nat)) :
+    let p := EntryPool.runR fix t0 h
+    let s := Entry.runR fix t0 (h.map (·.1))
+    (∀ k, EntryPool.nodeOf p k = Entry.nodeOf s k) ∧ p.log = s.log ∧
+    (∀ id, EntryPool.obsCtx p id = Entry.obsCtx s id) := by
+  have r := EntryPool.rel_runR fix t0 h
+  refine ⟨?_, r.log, ?_⟩
+  · intro k
+    cases k with
+    | none => simp only [EntryPool.nodeOf, Entry.nodeOf, r.inb]
+    | some res => simp only [EntryPool.nodeOf, Entry.nodeOf, r.nodes]
+  · intro id
+    unfold EntryPool.obsCtx Entry.obsCtx
+    have hex := r.exited id
+    cases hp : EntryPool.findP (EntryPool.runR fix t0 h).ents id with
+    | none =>
+      rw [hp] at hex
+      cases hs : findE (Entry.runR fix t0 (h.map (·.1))).ents id with
+      | none => rfl
+      | some c => rw [hs] at hex; simp at hex
+    | some pe =>
+      rw [hp] at hex
+      cases hs : findE (Entry.runR fix t0 (h.map (·.1))).ents id with
+      | none => rw [hs] at hex; simp at hex
+      | some c =>
+        rw [hs] at hex
+        have hexi : pe.exited = c.exited := by simpa using hex
+        by_cases hx : pe.exited = true
+        · have : c.exited = true := hexi ▸ hx
+          simp [hx, this]
+        · have hpf : pe.exited = false := by simpa using hx
+          have hcf : c.exited = false := hexi ▸ hpf
+          have := (r.live id pe hp hpf).2
+          rw [hs] at this
+          have hc : c = (EntryPool.runR fix t0 h).store.getD pe.ctx EntryPool.freshCtx := Option.some.inj this
+          have hcf' : ((EntryPool.runR fix t0 h).store.getD pe.ctx EntryPool.freshCtx).exited = false := hc ▸ hcf
+          simp only [hpf, Bool.false_eq_true, if_false, hcf']
+          rw [← hc]; simp [hcf]
+
+/-- in particular the pooled model's observables are the ledger's, for every pool behaviour -/
+theorem pooled_refines_ledger (fix : Bool) (t0 : Nat) (h : List (TOp × Nat)) (h0 : 0 < t0)
+    (hm : MonoR t0 (h.map (·.1))) (k : Key) (Iv now : Nat) (hnow : lastT t0 (h.map (·.1)) ≤ now) (hIv : Iv ≤ 10000) :
+    (EntryPool.nodeOf (EntryPool.runR fix t0 h) k).map (fun n => viewSum n.arr Iv now) = ledWindow fix (h.map (·.1)) k Iv now ∧
+    (EntryPool.nodeOf (EntryPool.runR fix t0 h) k).map (·.conc) = ledConc fix (h.map (·.1)) k ∧
+    (∀ id, EntryPool.obsCtx (EntryPool.runR fix t0 h) id = ledCtx (h.map (·.1)) id) := by
+  obtain ⟨h1, _, h3⟩ := pooled_refines_pool_free fix t0 h
+  have hrev : ((h.map (·.1)).reverse).reverse = h.map (·.1) := List.reverse_reverse _
+  have hm' : Mono t0 (h.map (·.1)).reverse := by unfold Mono; rw [hrev]; exact hm
+  have hnow' : lastT t0 ((h.map (·.1)).reverse).reverse ≤ now := by rw [hrev]; exact hnow
+  have w := window_refines_ledger fix t0 (h.map (·.1)).reverse h0 hm' k Iv now hnow' hIv
+  have c := conc_refines_ledger fix t0 (h.map (·.1)).reverse h0 hm' k
+  have x := fun id => (ctx_refines_ledger fix t0 (h.map (·.1)).reverse h0 hm' id).1
+  unfold run at w c x
+  simp only [hrev] at w c x
+  refine ⟨?_, ?_, ?_⟩
+  · rw [h1 k]; exact w
+  · rw [h1 k]; exact c
+  · intro id; rw [h3 id]; exact x id
 
 /-! ## (2) corollaries: what the ledger says, hence what the model does
 
